@@ -13,9 +13,10 @@ import io
 from harness import core, histcheck, isoapi
 from harness.props import c01, c04
 
-LEAN_MODULES = ['Pycdlib.Props.C03']
+LEAN_MODULES = ['Pycdlib.Props.C03', 'Pycdlib.Props.TiePack']
 THEOREMS = ['Pycdlib.decDR_encDR', 'Pycdlib.decPTR_encPTR', 'Pycdlib.decBoth16_both16', 'Pycdlib.decBoth32_both32',
-            'Pycdlib.decBoth32_rejects', 'Pycdlib.dr_len_even', 'Pycdlib.writer_no_straddle', 'Pycdlib.writer_matches_cache']
+            'Pycdlib.decBoth32_rejects', 'Pycdlib.dr_len_even', 'Pycdlib.writer_no_straddle', 'Pycdlib.writer_matches_cache',
+            'Pycdlib.dr_recalc_tie', 'Pycdlib.dr_recalc_init_tie']
 PARTIAL = {
     'master_wellformed_partial': 'record-level codecs and packing are proved; the image-level predicate (descriptor set, dot/dotdot, '
     'sortedness, path tables as level-order listing) is the reader\'s error list evaluated on pycdlib\'s bytes per history',
